@@ -82,6 +82,12 @@ def c06_sites():
     goext("c06", "C06Sites.lean")
 
 
+def c04_sites():
+    """Write sites of cypher/models/pgsql/format (provenance class per argument) and the construction sites of identifiers,
+    aliases, LIKE patterns, nested SQL, parameters and column lists in translate/optimize (goext mode c04)."""
+    goext("c04", "C04Sites.lean")
+
+
 GOTYPED_SRC = os.path.join(VERIF, "tools", "extract", "gotyped")
 GOTYPED_BIN = os.path.join(VERIF, "tools", "extract", "bin", "gotyped")
 
